@@ -293,6 +293,108 @@ fn alt_sexp(n: &mut Namer, scrut: &Expr, typ: &ArcType, alt: &Alternative, out: 
 }
 
 // ---------------------------------------------------------------------------------------------
+// The fragment of the proved rung (`GluonModel.Proofs.Compile.inF`), re-implemented here over the
+// real IR so that the evidence can say how many real function bodies the theorem
+// `compile_correct_F1` speaks about; the driver answers the same question with `inF` itself and
+// the two counts are compared like any other correspondence case.
+
+/// `patOk` of a record pattern: closed row, the `GetOffset` path of compile_let_pattern, every
+/// field found in the type.
+fn record_pat_in_frag(
+    scrut_typ: &ArcType,
+    fields: &[(gluon::base::ast::TypedIdent<Symbol>, Option<Symbol>)],
+) -> bool {
+    let env = empty_env();
+    let typ = resolve::remove_aliases(&env, &mut NullInterner, scrut_typ.remove_forall().clone());
+    let typ = typ.remove_forall();
+    match **typ {
+        Type::Record(_) => {}
+        _ => return false,
+    }
+    let mut field_iter = typ.row_iter();
+    let n = field_iter.by_ref().count();
+    let poly = **field_iter.current_type() != Type::EmptyRow;
+    if poly || !(fields.is_empty() || (n > 4 && n / fields.len() >= 4)) {
+        return false;
+    }
+    fields.iter().all(|(f, _)| typ.row_iter().any(|x| x.name.name_eq(&f.name)))
+}
+
+/// `counts`: (function bodies seen, function bodies inside the fragment); returns whether `e`
+/// itself is inside the fragment.
+fn in_frag(e: &Expr, counts: &mut (u64, u64)) -> bool {
+    let env = empty_env();
+    match e {
+        Expr::Const(..) | Expr::Ident(..) => true,
+        Expr::Cast(e, _) => in_frag(e, counts),
+        Expr::Let(lb, body) => match &lb.expr {
+            Named::Expr(b) => {
+                let a = in_frag(b, counts);
+                let c = in_frag(body, counts);
+                a && c
+            }
+            Named::Recursive(cs) => {
+                for c in cs {
+                    let ok = in_frag(c.expr, counts);
+                    counts.0 += 1;
+                    if ok {
+                        counts.1 += 1;
+                    }
+                }
+                in_frag(body, counts);
+                false
+            }
+        },
+        Expr::Call(f, args) => {
+            let head_ok = match f {
+                Expr::Ident(id, _) => {
+                    let nm = id.name.as_str();
+                    (nm == "&&" || nm == "||" || PRIM_INSTRS.contains(&nm)) && args.len() == 2
+                }
+                _ => false,
+            };
+            in_frag(f, counts);
+            let mut all = true;
+            for a in args.iter() {
+                all &= in_frag(a, counts);
+            }
+            head_ok && all
+        }
+        Expr::Data(id, args, _) => {
+            let mut all = true;
+            for a in args.iter() {
+                all &= in_frag(a, counts);
+            }
+            let mut dummy = Namer::default();
+            let k = data_kind(&mut dummy, id);
+            let kind_ok = k.starts_with("(rec") || k == "arr" || k.starts_with("(var (tag");
+            kind_ok && all
+        }
+        Expr::Match(scrut, alts) => {
+            let mut all = in_frag(scrut, counts);
+            let typ = alts[0].pattern.env_type_of(&env);
+            let typ = resolve::remove_aliases_cow(&env, &mut NullInterner, typ.remove_forall());
+            for alt in alts.iter() {
+                let pat_ok = match &alt.pattern {
+                    Pattern::Constructor(id, _) => resolved_tag(&typ, &id.name).starts_with("(tag"),
+                    Pattern::Ident(_) => true,
+                    Pattern::Literal(Literal::Int(_))
+                    | Pattern::Literal(Literal::Char(_))
+                    | Pattern::Literal(Literal::Byte(_)) => true,
+                    Pattern::Record { fields, .. } => {
+                        alts.len() == 1 && record_pat_in_frag(&scrut.env_type_of(&env), fields)
+                    }
+                    _ => false,
+                };
+                let b = in_frag(alt.expr, counts);
+                all &= pat_ok && b;
+            }
+            all
+        }
+    }
+}
+
+// ---------------------------------------------------------------------------------------------
 // Bytecode -> S-expression
 
 fn instr_sexp(i: &Instruction) -> String {
@@ -516,6 +618,12 @@ fn process(vm: &Thread, name: &str, src: &str) -> String {
         })
         .unwrap_or(0);
     let bc = module_sexp(&mut n, &cv.module);
+    let mut frag = (0u64, 0u64);
+    let top = in_frag(cv.core_expr.value.expr(), &mut frag);
+    frag.0 += 1;
+    if top {
+        frag.1 += 1;
+    }
     let mut globals = String::from("(");
     for g in &cv.module.module_globals {
         let _ = write!(globals, "({} {})", n.sym(g), global_value(vm, g.definition_name()));
@@ -541,7 +649,7 @@ fn process(vm: &Thread, name: &str, src: &str) -> String {
         Ok(Ok(v)) => format!("(ok {})", surf::canon_value(v.value.get_variant())),
         Ok(Err(e)) => surf::classify_error(&format!("{}", e)),
     };
-    serde_json::json!({"core": core, "bc": bc, "globals": globals, "result": result, "nfun": nfun, "outside": outside, "se_idx": se_idx}).to_string()
+    serde_json::json!({"core": core, "bc": bc, "globals": globals, "result": result, "nfun": nfun, "outside": outside, "se_idx": se_idx, "frag_total": frag.0, "frag_in": frag.1}).to_string()
 }
 
 fn child(optimize: bool) {
@@ -618,6 +726,9 @@ fn main() {
         progs.push((e, src));
     }
     let inputs: Vec<String> = progs.iter().map(|p| p.1.clone()).collect();
+    // outcome without optimisation, to notice (and only count: that is C04's property, not
+    // C01's) programs whose outcome the optimiser changes
+    let mut first_outcome: Vec<Option<String>> = vec![None; progs.len()];
     for mode in ["noopt", "opt"] {
         let results = batch_small(mode, &inputs);
         for (i, ((e, src), res)) in progs.iter().zip(results.iter()).enumerate() {
@@ -629,6 +740,15 @@ fn main() {
             let class =
                 result.split(' ').next().unwrap().trim_matches(|c| c == '(' || c == ')').to_string();
             out.count(&format!("{}:outcome:{}", mode, class));
+            if mode == "noopt" {
+                first_outcome[i] = Some(result.clone());
+            } else if let Some(r0) = &first_outcome[i] {
+                if *r0 != result {
+                    out.count("note:optimisation-changes-outcome(C04)");
+                    out.sample(serde_json::json!({"note": "optimisation changes the outcome", "source": src,
+                        "noopt": r0, "opt": result}));
+                }
+            }
             if class == "err:static" {
                 out.count("skipped:static-error");
                 continue;
@@ -654,7 +774,7 @@ fn main() {
                 out.class(key.join(","));
             }
             out.add("functions", v["nfun"].as_u64().unwrap_or(0));
-            if i % 97 == 3 && mode == "noopt" {
+            if i % 997 == 3 && mode == "noopt" {
                 out.sample(serde_json::json!({"source": src, "impl": result, "core": core}));
             }
             out.case(&format!("evalcore {} {}", globals, core), &result);
@@ -667,6 +787,10 @@ fn main() {
                 }
             }
             out.case(&format!("runbc {} {}", globals, bc), &result);
+            let (ft, fi) = (v["frag_total"].as_u64().unwrap_or(0), v["frag_in"].as_u64().unwrap_or(0));
+            out.add("function-bodies", ft);
+            out.add("function-bodies-in-proved-fragment-F1", fi);
+            out.case(&format!("fragcount {}", core), &format!("({} {})", ft, fi));
         }
     }
     out.finish();
